@@ -28,14 +28,14 @@ package chain
 //@          && (db.buckets[a] != nil ==> db.buckets[a] != db.puts && db.buckets[a] != db.buckets))
 //@     && (forall n string, k string :: !(k in db.puts[n] && k in db.dels[n]))
 //
-//@ func (*MemDB).get props C17
+//@ func (*MemDB).get props C17,C03
 //@   inline
 //@   nopanic
 //@   assigns nothing
 //@   requires memInv(db)
 //@   ensures [view] result == memView(db, bucket, string(key))
 //
-//@ func (*MemDB).put props C17
+//@ func (*MemDB).put props C17,C03
 //@   inline
 //@   nopanic
 //@   requires memInv(db)
@@ -45,7 +45,7 @@ package chain
 //@   ensures [frame] forall n string, k string :: n != bucket ==> memView(db, n, k) == old(memView(db, n, k))
 //@   ensures [noop] result != nil ==> forall n string, k string :: memView(db, n, k) == old(memView(db, n, k))
 //
-//@ func (*MemDB).delete props C17
+//@ func (*MemDB).delete props C17,C03
 //@   inline
 //@   nopanic
 //@   requires memInv(db)
@@ -72,7 +72,7 @@ package chain
 //@   ensures [noop] result1 != nil ==> forall n string, k string :: memView(db, n, k) == old(memView(db, n, k)) && (memExists(db, n) <==> old(memExists(db, n)))
 //
 // Cancel discards exactly the unflushed writes: afterwards the view is the committed data.
-//@ func (*MemDB).Cancel props C17
+//@ func (*MemDB).Cancel props C17,C03
 //@   nopanic
 //@   requires memInv(db)
 //@   loop "range db.puts"
@@ -126,7 +126,7 @@ package chain
 //
 // CacheDB.Flush / Cancel: whatever the cache layer holds (also nothing: buckets are created in
 // the backend directly), the backend's own Flush / Cancel is reached and its result returned.
-//@ func (*CacheDB).Flush props C17
+//@ func (*CacheDB).Flush props C17,C03
 //@   requires db != nil && db.mem != nil && db.db != nil && db.kvs != nil
 //@   ensures [backend-flushed] called("DB.Flush") && result == callres("DB.Flush")
 //@ func (*CacheDB).Cancel props C17
